@@ -279,7 +279,7 @@ pub fn gen_managed(rng: &mut Rng, cfg: &GenCfg) -> MScenario {
                     }
                 }
                 1 => Op::Return { slot: rng.below(4) as u8 },
-                2 => Op::Take { slot: rng.below(4) as u8 },
+                2 => Op::Take { slot: rng.below(4) as u8, detach_panics: cfg.faults && rng.below(100) < 12 },
                 3 => Op::Retain {
                     pred: match rng.below(6) {
                         0 => Pred::AcceptAll,
